@@ -6,6 +6,7 @@ import (
 	"encoding/json"
 	"os"
 	"regexp"
+	"strings"
 
 	"verif/internal/job"
 )
@@ -63,7 +64,12 @@ func Load(path string) (*File, error) {
 }
 
 // Predicates are the named predicates; they see the whole record.
-var Predicates = map[string]func(*job.Record) bool{}
+var Predicates = map[string]func(*job.Record) bool{
+	// the case is one of the two of C01's deep family (the case description says so)
+	"c01-deep-family-case": func(r *job.Record) bool {
+		return strings.Contains(string(r.Case), `"family":"deep"`)
+	},
+}
 
 // Match returns the open finding that explains r, or nil.
 func (f *File) Match(property string, r *job.Record) *Finding {
